@@ -32,10 +32,18 @@ type Case2 struct {
 	Dup   string `json:"dup"`   // none | A-adjacent | B-adjacent | both-adjacent | A-at-B | B-at-A
 	Order string `json:"order"` // for responses of the same instant: AB | BA | AB-nowait | BA-nowait
 	Close string `json:"close"` // never | after-start | before-first-response | after-first-response
+	// WErrB: the first transmission of B fails with a write error (only with OffB "half": the socket is armed
+	// between two transmissions of A). B ends with that error; A is another transaction and goes on as if alone.
+	WErrB bool `json:"werr_b,omitempty"`
 }
 
 func (c Case2) String() string {
-	return fmt.Sprintf("rto=%dms A=%v B=%v offB=%s dup=%s order=%s close=%s", c.RTOms, c.A, c.B, c.OffB, c.Dup, c.Order, c.Close)
+	we := ""
+	if c.WErrB {
+		we = " B's-first-write-fails"
+	}
+
+	return fmt.Sprintf("rto=%dms A=%v B=%v offB=%s dup=%s order=%s close=%s%s", c.RTOms, c.A, c.B, c.OffB, c.Dup, c.Order, c.Close, we)
 }
 
 func ansPlans(thorough bool) []ans {
@@ -91,6 +99,11 @@ func runPair(t *testing.T, c Case2) res2 {
 		items := []item{
 			{at: 0, prio: prioTimer, name: "start-A", fn: func(w *world) { trA = w.start("A", idA) }},
 			{at: offB, prio: prioB, name: "start-B", fn: func(w *world) { trB = w.start("B", idB) }},
+		}
+		werrB := 0
+		if c.WErrB {
+			werrB = 1
+			items = append(items, item{at: offB, prio: prioArmFirst, name: "arm-werr", fn: func(w *world) { w.cs.WriteErr, w.cs.WriteErrOnce = errInjected, true }})
 		}
 		var evA, evB []hEv
 		var tA, tB time.Duration = -1, -1
@@ -178,7 +191,7 @@ func runPair(t *testing.T, c Case2) res2 {
 		w.play(items)
 		w.goTo(end + 2*time.Millisecond)
 		pA := reference(0, rto, 0, 0, evA)
-		pB := reference(offB, rto, 0, 0, evB)
+		pB := reference(offB, rto, werrB, 0, evB)
 		all := w.arrivals()
 		oA := w.checkTx(trA, "", pA, all)
 		oB := w.checkTx(trB, "", pB, all)
@@ -199,6 +212,9 @@ func runPair(t *testing.T, c Case2) res2 {
 			rel = "only-A"
 		case tB >= 0:
 			rel = "only-B"
+		}
+		if c.WErrB {
+			rel += "+B's-first-write-fails"
 		}
 		res.class = fmt.Sprintf("responses=%s dup=%s close=%s -> A:%s B:%s", rel, c.Dup, c.Close, oA.label(), oB.label())
 		if state != "" {
@@ -308,8 +324,20 @@ func TestC12Concurrent(t *testing.T) {
 					if o.a.I != 0 || o.b.I != 0 {
 						closes = append(closes, "before-first-response", "after-first-response")
 					}
+					type cw struct {
+						cl string
+						we bool
+					}
+					var cws []cw
 					for _, cl := range closes {
-						c := Case2{RTOms: o.rto, A: o.a, B: o.b, OffB: off, Dup: dup, Order: ord, Close: cl}
+						cws = append(cws, cw{cl, false})
+					}
+					if off == "half" && o.b.I == 0 && (dup == "none" || dup == "A-adjacent") {
+						cws = append(cws, cw{"never", true})
+					}
+					for _, k := range cws {
+						cl := k.cl
+						c := Case2{RTOms: o.rto, A: o.a, B: o.b, OffB: off, Dup: dup, Order: ord, Close: cl, WErrB: k.we}
 						rep.Current(map[string]any{"part": "concurrent", "case": c, "sig_hint": "c12-concurrent:case-never-quiesces(lock-held-or-spin)"})
 						stop := r.Guard(30*time.Second, "c12-concurrent:case-never-quiesces(lock-held-or-spin)", func() any { return c })
 						res := runPair(t, c)
